@@ -48,3 +48,21 @@ Lemma append_shape_is_detected_lemma :
   existsb (fun p => match ca_kind (fst p), ca_kind (snd p) with AA, AA => true | _, _ => false end)
           (unprotected_pairs (map with_in_place_append client_accesses)) = true.
 Proof. vm_compute. reflexivity. Qed.
+
+(* no slice / map obtained from a function that hands out struct-held memory is mutated in place by its caller *)
+Lemma no_cached_slice_mutated_in_place_lemma :
+  cached_mutations client_escapes client_mutations = [] /\
+  client_escapes <> [] /\
+  existsb (fun m => String.eqb (m_op m) "slices.SortFunc" && String.eqb (m_origin m) "fresh") client_mutations = true.
+Proof. split; [vm_compute; reflexivity | split; [vm_compute; discriminate | vm_compute; reflexivity]]. Qed.
+
+(* the relation is not blind: if the npm API client's Versions handed out a struct-held list in its Versions
+   field and the resolution client sorted what it got from that call, the pair would be reported *)
+Definition seeded_escapes : list cescape :=
+  mkesc "Versions" "Versions" "pkgDetails.versions" "datasource/npm_registry.go" 0 :: client_escapes.
+Definition seeded_mutations : list cmutate :=
+  mkmut "Versions" "slices.SortFunc" "vers.Versions" "Versions" "Versions" "resolution/npm_registry_client.go" 0 :: client_mutations.
+
+Lemma cached_mutation_shape_is_detected_lemma :
+  map m_expr (cached_mutations seeded_escapes seeded_mutations) = ["vers.Versions"].
+Proof. vm_compute. reflexivity. Qed.
